@@ -102,6 +102,40 @@ Theorem C09_imports_exact : forall (p : pkg string) retained x,
 Proof. exact imports_exact_lemma. Qed.
 Print Assumptions C09_imports_exact.
 
+(* needs_wf is not an assumption for classes DERIVED from their fields: the import items a class body refers to
+   are computed from the field annotations (Optional / List levels, builtin, Any, Upload, enum, quoted input
+   class, custom scalar with or without PlainSerializer, Field for an alias or a collection default) together with
+   its input dependencies, enums and scalar import candidates - and then every need is covered by construction of
+   the candidates.  The tie compares the derived needs with the names each class of the generated file uses. *)
+Theorem C09_derived_needs_wf : forall (p : pkg string), incl std_preamble (p_preamble p) ->
+  (forall d, In d (p_inputs p) -> exists snake fs, d = derive snake (i_name d) (i_body d) fs) -> needs_wf p.
+Proof. exact derived_needs_wf. Qed.
+Print Assumptions C09_derived_needs_wf.
+
+Theorem C09_derived_imports_cover : forall (p : pkg string), NoDup (map i_name (p_inputs p)) ->
+  incl std_preamble (p_preamble p) ->
+  (forall d, In d (p_inputs p) -> exists snake fs, d = derive snake (i_name d) (i_body d) fs) ->
+  forall retained d, In d (p_inputs p) -> In (i_name d, i_body d) retained ->
+  forall x, In x (i_needs d) -> In x (module_imports p retained).
+Proof. exact derived_imports_cover. Qed.
+Print Assumptions C09_derived_imports_cover.
+
+Example C09_derive_example :
+  let d := derive true "WindowInput" "class WindowInput"
+             [ {| if_name := "at"; if_nullable := true; if_list := false; if_coll_default := false;
+                  if_base := BCustom (Some "pathlib:PurePosixPath") (Some "scalars_impl:ser_stamp")
+                                     (Some "scalars_impl:parse_stamp") true |};
+               {| if_name := "openDays"; if_nullable := false; if_list := true; if_base := BEnum "Day";
+                  if_coll_default := true |};
+               {| if_name := "next"; if_nullable := true; if_list := false; if_base := BInput "WindowInput";
+                  if_coll_default := false |} ] in
+  i_deps d = ["WindowInput"] /\ i_enums d = ["Day"] /\
+  i_scalar_items d = ["pathlib:PurePosixPath"; "scalars_impl:ser_stamp"; "scalars_impl:parse_stamp"] /\
+  i_needs d = [".base_model:BaseModel"; "typing:Optional"; "pathlib:PurePosixPath"; "typing:Annotated";
+               "pydantic:PlainSerializer"; "scalars_impl:ser_stamp"; "typing:List"; ".enums:Day"; "pydantic:Field";
+               "typing:Optional"].
+Proof. vm_compute. repeat split. Qed.
+
 (* ---- non-vacuity: a cyclic graph with a self-loop, a dangling name and an unreachable component ---- *)
 Definition g_ex : graph :=
   [("A", ["B"; "C"; "B"]); ("B", ["A"; "B"]); ("C", ["Missing"]); ("D", ["A"]); ("E", [])].
